@@ -18,7 +18,7 @@ ASSUMPTIONS = [
 ]
 BUDGET_S = {"quick": 150, "thorough": 3000}
 
-WRAPPERS = ["T", "T!", "[T]", "[T]!", "[T!]", "[T!]!"]
+WRAPPERS = ["T", "T!", "[T]", "[T]!", "[T!]", "[T!]!", "[[T]]", "[[T!]!]!"]  # the last two only in the thorough tier
 RAISING = ("raise", "raise_te", "return_exc")
 
 
@@ -279,8 +279,9 @@ def shards(tier, seed):
     nseeds = len(seeds.K_DOCS) + len(seeds.K_MUTATIONS) + len(ARG_DOCS)
     for si in range(nseeds):
         items.append(("seed", si, tier))
-    for w1 in range(6):
-        for w2 in range(6):
+    nw = 6 if tier == "quick" else 8
+    for w1 in range(nw):
+        for w2 in range(nw):
             items.append(("chain", w1, w2, tier))
     return items
 
@@ -311,7 +312,7 @@ def run_shard(item):
                     out["samples"].append({"document": text, "fault_kinds": [k for k, _, _ in kinds_for(schema, schema.field_def("Query", "nodes"))]})
         else:
             _, w1, w2, tier = item
-            for w3 in range(6):
+            for w3 in range(6 if tier == "quick" else 8):
                 schema = chain_schema(WRAPPERS[w1], WRAPPERS[w2], WRAPPERS[w3])
                 engine = explore.engine_for(("chain", w1, w2, w3), schema)
                 text, located = doc.roundtrip(doc.parse(CHAIN_DOC))
@@ -338,7 +339,7 @@ def finish(agg, tier):
                 "reference executor reaches (list indices included); all singles x applicable failure kinds "
                 "{raise, raise library error, exception returned as value, null, unserialisable leaf, non-list for list, "
                 "unknown / foreign / non-object runtime type} on every document within 1 rewrite of the 14 seeds, all pairs on "
-                "the seeds%s, and singles + pairs on the 216 chain schemas (6 wrapper shapes ^ 3 levels). distinct_nontrivial = "
+                "the seeds%s, and singles + pairs on the chain schemas (6 wrapper shapes ^ 3 levels = 216; thorough 8 ^ 3 = 512 incl. two-level lists). distinct_nontrivial = "
                 "distinct cases with at least one injected fault" % (" and on d=1 documents, triples on seeds" if tier == "thorough" else ""),
         "exhaustive": True,
     }
